@@ -104,7 +104,7 @@ class AbortCase(Case):
                                              extra={"optimizer": {"method": "symstub/x"}})
         # how many events / calls the aborting party sees in an undisturbed run (bound of the abort index)
         per_step = 2 + 2 * nevals
-        steps = {"single": 1, "two-steps": 2, "evaluator": 1, "nested-inner": 1, "nested-outer": 1, "nested3": 1}[shape]
+        steps = {"single": 1, "two-steps": 2, "evaluator": 1, "nested-inner": 1, "nested-outer": 1, "nested3": 1, "nested-reparented": 1}[shape]
         if shape == "evaluator":
             self.nmax = 4 if who != "evaluator" else 1
         elif shape.startswith("nested"):
@@ -185,7 +185,14 @@ class AbortCase(Case):
                 if not inner.aborted:
                     out["codes"].append(plan.run_step(step, config=cfg, variables=env.const(pts[1])))
             else:
-                inner, _ = make_plan(ev, rec, parent=plan, handler_names=("hi",))
+                ctor_parent = plan
+                if self.shape == "nested-reparented":
+                    # the inner plan was created under another plan and is now run as the nested plan of `plan`:
+                    # its events belong to the chain it runs in, not to the one it was born in
+                    from ropt.plan import Plan
+                    ctor_parent = Plan(plan.optimizer_context)
+                    ctor_parent.add_handler("verifrec/rec", recorder=rec, label="ho")
+                inner, _ = make_plan(ev, rec, parent=ctor_parent, handler_names=("hi",))
                 inner_plans.append(inner)
                 tracker = inner.add_handler("tracker")
                 inner_step = inner.add_step("optimizer")
@@ -336,6 +343,8 @@ def build_cases(tier):
     add(shape="single", who="evaluator", flags=True, rmin=0, nevals=3)
     for who in ("observer", "handler", "inner-handler", "evaluator"):
         add(shape="nested-inner" if who in ("inner-handler",) else "nested-outer", who=who)
+    for who in ("observer", "handler"):
+        add(shape="nested-reparented", who=who)   # the nested plan was created under another plan
     add(BasicOptimizerCase)
     if tier == "thorough":
         for who in ("observer", "handler", "evaluator"):
@@ -347,7 +356,7 @@ def build_cases(tier):
 
 
 META = dict(
-    bounds={"quick": "plans: one optimizer step, two sequential steps, one evaluator step, an optimizer step with a nested plan; 2 evaluations per step (functions, then functions+gradients); abort raised by an observer, a handler, an inner-plan handler or the evaluator at every event/call index of the run (solver integer), or not at all",
+    bounds={"quick": "plans: one optimizer step, two sequential steps, one evaluator step, an optimizer step with a nested plan (also one created under another parent); 2 evaluations per step (functions, then functions+gradients); abort raised by an observer, a handler, an inner-plan handler or the evaluator at every event/call index of the run (solver integer), or not at all",
             "thorough": "3 evaluations per step, failures and max_functions mixed in",
             "outside": "longer runs; several observers raising; aborts inside SciPy"},
     stubs=["optimizer plug-in `symstub`", "sampler plug-in `stub`", "recording ResultHandler plug-in `verifrec` (added through PluginManager.add_plugin) and observers for every event type"],
